@@ -194,23 +194,31 @@ Proof. exact merge_group_preserves. Qed.
 Print Assumptions C12_merge_preserves.
 
 Theorem C12_merge_defined : forall g1 g2 im,
-  WFg g1 -> WFg g2 -> g_hastag g1 = g_hastag g2 -> g_sup g1 = g_sup g2 ->
-  incr (g_keys g1 ++ g_keys g2) ->
+  WFg g1 -> WFg g2 -> (im = true \/ g_hastag g1 = g_hastag g2) -> g_sup g1 = g_sup g2 ->
+  NoDup (g_keys g1 ++ g_keys g2) ->
   exists g', merge_group [g1; g2] false false im = Some g'.
 Proof. exact merge_two_defined. Qed.
 Print Assumptions C12_merge_defined.
 
-(* "merging groups preserves ..." presupposes that the merge succeeds.  With the metadata kept (the
-   default) and the index not reset it does NOT when the concatenated keys are not already increasing:
-   keys {5} merged with keys {0}, same support, disjoint keys -> ValueError; the other order works. *)
-Theorem C12_merge_total_refuted :
+(* merge_group as it was at the pinned commit (merge_group_orig): with the metadata kept (the default)
+   and the index not reset it FAILED when the concatenated keys were not already increasing: keys {5}
+   merged with keys {0}, same support, disjoint keys -> ValueError; the other order worked.  Repaired
+   in /repo ("merge_group failed on interleaved keys"); the repaired model accepts the witness, and
+   everything the original accepted is returned unchanged. *)
+Theorem C12_merge_orig_total_refuted :
   exists g1 g2, WFg g1 /\ Rg g1 /\ WFg g2 /\ Rg g2 /\ g_sup g1 = g_sup g2
     /\ (forall k, In k (g_keys g1) -> ~ In k (g_keys g2))
-    /\ merge_group [g1; g2] false false false = None
-    /\ merge_group [g2; g1] false false false <> None
-    /\ merge_group [g1; g2] false false true <> None.
-Proof. exact merge_total_refuted. Qed.
-Print Assumptions C12_merge_total_refuted.
+    /\ merge_group_orig [g1; g2] false false false = None
+    /\ merge_group_orig [g2; g1] false false false <> None
+    /\ merge_group_orig [g1; g2] false false true <> None
+    /\ merge_group [g1; g2] false false false <> None.
+Proof. exact merge_orig_total_refuted. Qed.
+Print Assumptions C12_merge_orig_total_refuted.
+
+Theorem C12_merge_orig_sub : forall gs ri rs im g',
+  merge_group_orig gs ri rs im = Some g' -> merge_group gs ri rs im = Some g'.
+Proof. exact merge_group_orig_sub. Qed.
+Print Assumptions C12_merge_orig_sub.
 
 (* ---- 8. to_tsd -> to_tsgroup: the members with samples come back under their keys ---- *)
 Theorem C12_tsd_roundtrip : forall g,
